@@ -3,7 +3,8 @@
 import os
 HERE = os.path.dirname(os.path.abspath(__file__))
 VARIANTS = ["IgnoreUnknownIdx", "UnlinkOnDeregister", "ResumeClearsBackoff", "IncBeforeSend", "NoClearOnLimit", "ResumeSkipsAcceptAll",
-            "BackoffNeverReregisters", "RoundRobinStuck", "ConnErrIsFatal", "WakeSkipsAcceptAll", "PauseKeepsRegistered"]
+            "BackoffNeverReregisters", "RoundRobinStuck", "ConnErrIsFatal", "WakeSkipsAcceptAll", "PauseKeepsRegistered",
+            "RejoinPausedNoAvail"]
 DESIGN = {"IgnoreUnknownIdx": "TRUE", "ResumeClearsBackoff": "TRUE"}
 INVS = ("TypeOK C01_Conservation C01_ServedOnce C01_NoSilentDrop C02_Bound C02_NoForcedSend C03_NoLostWake "
         "C04_RoundRobin C04_BitsTrueWhenCalm C05_ListenerLive C05_UdsReachable C05_ConnErrNoDelay C05_TimerHasTimeout C08_NoPanic "
@@ -59,6 +60,8 @@ cfg("MC_cmd_w2l2e2", 2, 2, 2, [2], 3, cmds=3, errs=2)   # 75 M states, ~8 min
 cfg("MC_cmd_w2", 2, 1, 2, [2], 2, cmds=3, errs=1)          # 2.9 M states
 cfg("MC_cmd_w2b", 2, 1, 1, [1], 3, cmds=2, errs=1)         # 0.8 M states
 cfg("MC_cmd_fault", 2, 2, 1, [], 3, cmds=2, errs=1, faults=1)  # 8.2 M states
+# a worker dies and is replaced while commands arrive (a replacement handle handled during a pause)
+cfg("MC_cmd_fault_w1", 1, 1, 1, [], 2, cmds=2, faults=1, edges=True)
 # back-off with a third connection (a notification inside the back-off window finds a client waiting on the listener)
 cfg("MC_err_c3", 1, 1, 1, [], 3, errs=1, edges=True)
 # two listeners, one pause, one accept error: a pause inside the back-off window of the other listener
@@ -82,4 +85,5 @@ cfg("NEG_ConnErrIsFatal", 1, 1, 1, [], 2, errs=1, flip=["ConnErrIsFatal"])
 cfg("NEG_WakeSkipsAcceptAll", 1, 1, 1, [], 2, flip=["WakeSkipsAcceptAll"], invs="C03_NoLostWake")
 cfg("NEG_PauseKeepsRegistered", 1, 1, 1, [], 2, cmds=2, flip=["PauseKeepsRegistered"])
 cfg("NEG_ResumeClearsBackoff", 1, 1, 1, [], 2, cmds=3, errs=1, flip=["ResumeClearsBackoff"], invs="", props="Steps")
+cfg("NEG_RejoinPausedNoAvail", 1, 1, 1, [], 2, cmds=2, faults=1, flip=["RejoinPausedNoAvail"], invs="C03_NoLostWake C04_BitsTrueWhenCalm")
 print("configs written")
